@@ -245,3 +245,96 @@ Definition read_binary (s : bytes) : res (N * N * N * N * bytes * list bool) :=
       end
     | _ => Err
     end.
+
+(* ---------------- several positioned blocks streamed to one writer ---------------- *)
+
+(* one voxel row continuing a run held in the buffer: runs that end inside the row are written,
+   a run reaching the end of the row stays open (rleBuf.rles[yz]) *)
+Fixpoint scan_row (row : list bool) (vx : Z) (cur : option (Z * N)) : list (Z * N) * option (Z * N) :=
+  match row with
+  | [] => ([], cur)
+  | f :: rest =>
+    if f then scan_row rest (vx + 1)%Z (match cur with Some (s, l) => Some (s, l + 1) | None => Some (vx, 1) end)
+    else let '(rs, c) := scan_row rest (vx + 1)%Z None in
+         (match cur with Some r => r :: rs | None => rs end, c)
+  end.
+
+Definition rbuf := list (Z * Z * (Z * N)).     (* (vy, vz) -> open run (start x, length) *)
+
+Fixpoint rbuf_get (bf : rbuf) (vy vz : Z) : option (Z * N) :=
+  match bf with
+  | [] => None
+  | (y, z, r) :: rest => if Z.eqb y vy && Z.eqb z vz then Some r else rbuf_get rest vy vz
+  end.
+Definition rbuf_del (bf : rbuf) (vy vz : Z) : rbuf :=
+  filter (fun e => let '(y, z, _) := e in negb (Z.eqb y vy && Z.eqb z vz)) bf.
+Definition rbuf_runs (bf : rbuf) : list run := map (fun e => let '(y, z, (x, l)) := e in (x, y, z, l)) bf.
+
+(* pb.writeRLEs (repaired coordinates) for every row of the block, threading the buffer *)
+Definition block_rows (b : block) (inds : list N) (offx offy offz : Z) (bf : rbuf) : res (list run * rbuf) :=
+  let nx := 8 * b_gx b in let ny := 8 * b_gy b in let nz := 8 * b_gz b in
+  let fg := match b_labels b with
+            | [_] => fun _ _ _ => Ok true
+            | _ => fg_at true b inds offy offz
+            end in
+  if match b_labels b with [_] => false | _ => N.of_nat (length (b_nsb b)) <? b_gx b * b_gy b * b_gz b end then Panic
+  else
+    fold_left (fun (acc : res (list run * rbuf)) (zy : N * N) =>
+      match acc with
+      | Ok (out, bf) =>
+        let '(z, y) := zy in
+        let vy := (offy + Z.of_N y)%Z in let vz := (offz + Z.of_N z)%Z in
+        match mapR (fun x => fg x y z) (nseq nx) with
+        | Ok row =>
+          let '(closed, open) := scan_row row offx (rbuf_get bf vy vz) in
+          let bf' := rbuf_del bf vy vz in
+          Ok (out ++ map (fun r : Z * N => (fst r, vy, vz, snd r)) closed,
+              match open with Some r => (vy, vz, r) :: bf' | None => bf' end)
+        | Err => Err | Panic => Panic
+        end
+      | Err => Err | Panic => Panic
+      end)
+      (flat_map (fun z => map (fun y => (z, y)) (nseq ny)) (nseq nz)) (Ok ([], bf)).
+
+(* WriteRLEs over a stream of positioned blocks: a block holding none of the labels is skipped
+   without touching the buffer; the buffer survives into the next label-holding block only if
+   that block is the +X neighbour of the previous label-holding one *)
+Fixpoint write_rles_multi (blocks : list (block * (Z * Z * Z))) (lbls : list N)
+         (last : option (Z * Z * Z)) (bf : rbuf) (out : list run) : res (list run) :=
+  match blocks with
+  | [] => Ok (out ++ rbuf_runs bf)
+  | (b, (bx, by_, bz)) :: rest =>
+    let inds := label_indices (b_labels b) lbls in
+    match inds with
+    | [] => write_rles_multi rest lbls last bf out
+    | _ =>
+      let contiguous := match last with
+                        | None => true
+                        | Some (lx, ly, lz) => Z.eqb (lx + 1) bx && Z.eqb ly by_ && Z.eqb lz bz
+                        end in
+      let out1 := if contiguous then out else out ++ rbuf_runs bf in
+      let bf1 := if contiguous then bf else [] in
+      let offx := (bx * Z.of_N (8 * b_gx b))%Z in let offy := (by_ * Z.of_N (8 * b_gy b))%Z in
+      let offz := (bz * Z.of_N (8 * b_gz b))%Z in
+      match block_rows b inds offx offy offz bf1 with
+      | Ok (emitted, bf2) => write_rles_multi rest lbls (Some (bx, by_, bz)) bf2 (out1 ++ emitted)
+      | Err => Err | Panic => Panic
+      end
+    end
+  end.
+
+(* WriteBinaryBlocks over a stream: the 20-byte header once, before the first written block *)
+Fixpoint write_binary_multi (blocks : list (block * (Z * Z * Z))) (mainLabel : N) (lbls : list N)
+         (written : bool) : res bytes :=
+  match blocks with
+  | [] => Ok []
+  | (b, (bx, by_, bz)) :: rest =>
+    match write_binary b mainLabel lbls bx by_ bz with
+    | Ok o =>
+      match write_binary_multi rest mainLabel lbls (written || negb (Nat.eqb (length o) 0)) with
+      | Ok r => Ok ((if written then skipn 20 o else o) ++ r)
+      | Err => Err | Panic => Panic
+      end
+    | Err => Err | Panic => Panic
+    end
+  end.
